@@ -283,8 +283,9 @@ CELLS.append(Cell('P1.parse_modes', p1_modes, 'P', ['fst.parsex.parse', 'fst.fst
 
 # ---------------------------------------------------------------------------------------------------------------- P2
 # every mode of the C19 table, several fragments each, in several layouts; oracle = CPython parse of the construct holding the fragment
+from harness import c19  # noqa: E402  (at import time: it registers the symbolic bistr patch, which must not happen while tracing)
+
 def _layouts(frag, mode):
-    from harness import c19
     out = [('plain', frag)]
     bracketed = all('\n)' in c_[0] or '\n]' in c_[0] or '\n ]' in c_[0] or '\n )' in c_[0] for c_ in c19.MODES[mode][0])
     if bracketed:
@@ -300,7 +301,6 @@ def _layouts(frag, mode):
 
 
 def p2_mode_rows(i: int, lay: int):
-    from harness import c19
     assume(0 <= i < len(c19.ROWS))
     frag, mode, _h = c19.ROWS[pc.pin(i, 0, len(c19.ROWS) - 1)]
     lays = _layouts(frag, mode)
@@ -309,7 +309,7 @@ def p2_mode_rows(i: int, lay: int):
     with pc.untraced():
         # the layout must itself be valid for Python in this mode's construct, else it is not a test of pfst
         ok = False
-        for emb, path, _st, joined in c19.MODES[mode][0]:
+        for emb, path, _st, joined, _wr in c19.MODES[mode][0]:
             try:
                 path(ast.parse(emb.format(c19._join(text) if joined else text)))
                 ok = True
